@@ -1066,6 +1066,9 @@ class NetCDFRead(IORead):
             "has_groups": False,
             # Keep a list of flattened file names
             "flat_files": [],
+            # The datasets that have been opened, to be closed by
+            # `file_close`
+            "datasets": [],
             # --------------------------------------------------------
             # Domains (CF>=1.9)
             # --------------------------------------------------------
@@ -1184,6 +1187,7 @@ class NetCDFRead(IORead):
         # Open the netCDF file to be read
         # ------------------------------------------------------------
         nc = self.file_open(filename, flatten=True, verbose=None)
+        g["datasets"] = [nc]
         logger.info(f"Reading netCDF file: {filename}\n")  # pragma: no cover
         if debug:
             logger.debug(
